@@ -9,7 +9,7 @@ use std::sync::{Arc, Mutex};
 pub fn prop() -> Prop {
   Prop {
     id: "C06",
-    rule: "case = (subject type in Subject / SubjectThreads / MutRefItemSubject / MutRefErrSubject / MutRefItemErrSubject; history of <= 10 operations over <= 4 subscribers: subscribe, subscribe a probe that subscribes a further probe to a clone of the subject from inside its first callback, unsubscribe one subscription, next (numbered items), error, complete, retain, unsubscribe the subject; every operation goes through a fresh clone of the subject). \
+    rule: "case = (subject type in Subject / SubjectThreads / MutRefItemSubject / MutRefErrSubject / MutRefItemErrSubject; history of <= 10 operations over <= 4 subscribers (one history in eight: 33..45 subscribers or in-callback subscribers up front): subscribe, subscribe a probe that subscribes a further probe to a clone of the subject from inside its first callback, unsubscribe one subscription, next (numbered items), error, complete, retain, unsubscribe the subject; every operation goes through a fresh clone of the subject). \
            Oracle (model = ordered list of live subscribers): every subscriber's trace equals the items sent while it was subscribed (joined before the emission began, not yet unsubscribed), each exactly once and in order, then the subject's terminal once; the in-callback subscriber does not see the in-flight item and sees every later one; after a terminal or unsubscribe() nothing is delivered to anybody and is_finished() and is_empty() are true; before that is_finished() is false. Non-trivial: a join or leave between two emissions, or an emission after a terminal/unsubscribe, or an in-callback join. Distinct by hash(case). Part `short` enumerates every history of length <= 5 for every subject type (thorough tier). \
            Part `threads` (engine T): 2..3 threads each run <= 4 operations (next / complete / error / subscribe / subscribe a probe that subscribes another from inside its callback / unsubscribe / retain / is_empty+len) on one shared SubjectThreads with 1..2 probes subscribed up front, under a generated schedule of <= 3 preemptions at lock-acquisition granularity. Oracle: an item whose next() began after a subscriber's subscribe() had returned, and ended before any unsubscribe of that subscriber or any terminal began, is received by that subscriber exactly once; nobody receives an item twice, or an item whose next() began after its unsubscribe() had returned or ended before its subscribe() began; items of one producer arrive in order; at most one terminal per subscriber and nothing after it; no deadlock / panic.",
     assumptions: &[
@@ -29,6 +29,9 @@ pub fn prop() -> Prop {
 pub enum Op {
   Subscribe,
   SubscribeNesting,
+  /// subscribe this many probes at once (scale: lists longer than the inline capacity / any threshold)
+  SubscribeMany(usize),
+  SubscribeNestingMany(usize),
   UnsubOne(usize),
   Next,
   Error,
@@ -84,22 +87,31 @@ pub fn run_history(kind: usize, ops: &[Op]) -> Result_ {
   let (mut join_leave_between, mut after_dead, mut nested_join, mut emitted) = (false, false, false, false);
   for (k, op) in ops.iter().enumerate() {
     match op {
-      Op::Subscribe | Op::SubscribeNesting => {
-        if next_id >= 6 {
-          continue;
-        }
-        let id = next_id;
-        next_id += 1;
-        let nest = if *op == Op::SubscribeNesting {
-          let c = next_id;
-          next_id += 1;
-          Some(c)
-        } else {
-          None
+      Op::Subscribe | Op::SubscribeNesting | Op::SubscribeMany(_) | Op::SubscribeNestingMany(_) => {
+        let (count, nesting) = match op {
+          Op::Subscribe => (1, false),
+          Op::SubscribeNesting => (1, true),
+          Op::SubscribeMany(n) => (*n, false),
+          Op::SubscribeNestingMany(n) => (*n, true),
+          _ => unreachable!(),
         };
-        handles.push(Some(subj.subscribe(id, nest, &log)));
-        handle_owner.push(id);
-        model.push(MSub { id, alive: !dead, nest, expected: vec![] });
+        for _ in 0..count {
+          if next_id >= 120 {
+            break;
+          }
+          let id = next_id;
+          next_id += 1;
+          let nest = if nesting {
+            let c = next_id;
+            next_id += 1;
+            Some(c)
+          } else {
+            None
+          };
+          handles.push(Some(subj.subscribe(id, nest, &log)));
+          handle_owner.push(id);
+          model.push(MSub { id, alive: !dead, nest, expected: vec![] });
+        }
         if emitted {
           join_leave_between = true;
         }
@@ -239,7 +251,19 @@ fn finish(kind: usize, ops: Vec<Op>, ctx: &Ctx) -> Outcome {
 fn run_random(c: &mut dyn Choices, ctx: &Ctx) -> Outcome {
   let kind = c.pick(5);
   let n = c.pick(11);
-  let ops: Vec<Op> = (0..n).map(|_| gen_op(c)).collect();
+  let mut ops: Vec<Op> = (0..n).map(|_| gen_op(c)).collect();
+  // (appended picks, recorded tapes keep their meaning) one history in eight works on a crowded subject:
+  // 33..45 subscribers (or in-callback subscribers) up front, and unsubscribes reach into the crowd
+  if c.pick(8) == 7 {
+    let m = 33 + c.pick(13);
+    let first = if c.pick(3) == 0 { Op::SubscribeNestingMany(m) } else { Op::SubscribeMany(m) };
+    for op in ops.iter_mut() {
+      if let Op::UnsubOne(_) = op {
+        *op = Op::UnsubOne(c.pick(48));
+      }
+    }
+    ops.insert(0, first);
+  }
   finish(kind, ops, ctx)
 }
 
